@@ -31,3 +31,12 @@ Example C09_nonvacuous :
   c_before_ctx (cfg_of [OBeforeCtx 3; OStore]) = [BUser 3; BPersist] /\
   c_before_ctx (cfg_of [OAfterCtx 1; OStore; OBeforeCtx 2; OBeforeCtx 3; OObs]) = [BUser 3; BPersist].
 Proof. vm_compute. auto. Qed.
+
+(* a hook option given a nil function ("no hook") is an option like the others: it removes the user's hook and keeps
+   the persistence step *)
+Example C09_nil_hooks :
+  c_before_ctx (cfg_of [OStore; ONilBeforeCtx]) = [BPersist] /\
+  c_before_ctx (cfg_of [OBeforeCtx 3; OStore; ONilBeforeCtx]) = [BPersist] /\
+  c_before_ctx (cfg_of [ONilBeforeCtx; OBeforeCtx 3; OStore]) = [BUser 3; BPersist] /\
+  c_before_legacy (cfg_of [OBeforeLegacy 2; OStore; ONilBeforeLegacy]) = None.
+Proof. vm_compute. auto. Qed.
